@@ -48,6 +48,11 @@ MISSED_FIRST = {
     "c13-open-schedules-before-gc": "T1-gc-before-background",
     "c11-merger-status-keeps-last-child": "T4-status-not-overwritten (a status is looked at before its variable is assigned again, on every path)",
     "c18-current-empty-wraps-length": "(exit 2 at first: the C18 row matched the index expression by text; the row now matches any read of the buffer)",
+    "c10-compact-reads-version-unlocked": "T10-pinning/version-pointer (a copy of versions->current is used only under the mutex or after a ref)",
+    "c09-recover-skips-finalize": "T1-finalized-before-install",
+    "c15-writer-init-length-cast-to-int": "T2-log-reuse-offset/writer_init:64-bit",
+    "c20-parse-filename-prefix-suffixes": "T5-parse-exact",
+    "c11-twoiter-saves-incoming-status": "T5-twoiter-replace/who-may-replace",
     "c09-open-does-not-schedule-compaction": "T11-work-scheduled",
     "c07-dbiter-skip-bytewise-equal": "T12-dbiter-composition (db_iter.c tables were added after this seed arrived)",
 }
